@@ -24,6 +24,9 @@ typedef amgcl::amg<B, amgcl::runtime::coarsening::wrapper, amgcl::runtime::relax
 
 static const int TH[] = {1, 2, 3, 4, 5, 8, 16, 17, 24, 32};
 static const int NTH = 10;
+// hierarchies are built under a subset (every algorithm switch has a count on each side: 3|4 serial/level-scheduled, 16|17 SpGEMM)
+static const int HQ[] = {0, 1, 2, 3, 4, 6, 7, 8};   // indices into TH: 1,2,3,4,5,16,17,24
+static const int NHQ = 8;
 
 static bool same_bits(const std::vector<double> &a, const std::vector<double> &b) {
     return a.size() == b.size() && (a.empty() || memcmp(a.data(), b.data(), a.size() * sizeof(double)) == 0);
@@ -35,7 +38,7 @@ static bool same_csr(const Csr<double> &a, const Csr<double> &b) {
 static bool close_csr(const Csr<double> &a, const Csr<double> &b, double tol, std::string &why) {
     if (!(a.n == b.n && a.m == b.m && a.ptr == b.ptr && a.col == b.col)) { why = "structure differs"; return false; }
     double mx = 0; for (double v : a.val) mx = std::max(mx, std::abs(v));
-    for (size_t i = 0; i < a.val.size(); ++i) if (!(std::abs(a.val[i] - b.val[i]) <= tol * mx)) { std::ostringstream os; os << "value " << i << ": " << a.val[i] << " vs " << b.val[i] << " (max " << mx << ")"; why = os.str(); return false; }
+    for (size_t i = 0; i < a.val.size(); ++i) if (!(std::abs(a.val[i] - b.val[i]) <= tol * mx) && !(std::isnan(a.val[i]) && std::isnan(b.val[i]))) { std::ostringstream os; os << "value " << i << ": " << a.val[i] << " vs " << b.val[i] << " (max " << mx << ")"; why = os.str(); return false; }
     return true;
 }
 
@@ -173,7 +176,7 @@ static const char *RELAX[] = {"spai0", "damped_jacobi", "gauss_seidel", "chebysh
 
 // group: 0 -> compare inside {1..16} and inside {17..32} (bitwise list); returns via VF_REQUIRE
 static void prop_hierarchy(Tape &t, Ctx &c) {
-    Graph g = gen_graph(t, t.chance(1, 3) ? 700 : 120, 0, 8);
+    Graph g = gen_graph(t, t.chance(1, 3) ? 400 : 100, 0, 8);
     Csr<double> A = gen_mmat(t, g, 100.0, true);
     int ci = static_cast<int>(t.u(0, 3)), ri = static_cast<int>(t.u(0, 5));
     boost::property_tree::ptree prm;
@@ -193,12 +196,13 @@ static void prop_hierarchy(Tape &t, Ctx &c) {
     bool setup_bitwise = ci != 3;
     bool apply_bitwise = setup_bitwise && ri != 4;
     std::vector<Hier> H(NTH);
-    for (int q = 0; q < NTH; ++q) { set_threads(TH[q]); H[q] = build(A, prm, rhs); }
+    for (int qq = 0; qq < NHQ; ++qq) { int q = HQ[qq]; set_threads(TH[q]); H[q] = build(A, prm, rhs); }
     set_threads(c.threads);
     size_t nl = H[0].A.size();
     c.nontrivial = nl >= 2;
     c.label(nl >= 3 ? "levels>=3" : nl == 2 ? "levels=2" : "levels=1");
-    for (int q = 1; q < NTH; ++q) {
+    for (int qq = 1; qq < NHQ; ++qq) {
+        int q = HQ[qq];
         int ref = TH[q] <= 16 ? 0 : 7; // bitwise inside each SpGEMM-algorithm group; the cross-group clause is prop hierarchy_cross
         if (q == 7) continue;
         VF_REQUIRE(H[q].A.size() == H[ref].A.size() && H[q].P.size() == H[ref].P.size(), "number of levels differs between " << TH[ref] << " and " << TH[q] << " threads");
@@ -310,12 +314,12 @@ static void prop_solve(Tape &t, Ctx &c) {
 
 static std::vector<Prop> props() {
     return {
-        Prop("kernels", prop_kernels, 250, 2500, 100, 40, {1}, 2, 4),
-        Prop("gs", prop_gs, 150, 1500, 100, 40, {1}, 2, 4),
-        Prop("hierarchy", prop_hierarchy, 60, 600, 100, 60, {1}, 4, 8),
-        Prop("solve", prop_solve, 40, 400, 100, 40, {1}, 2, 4),
-        Prop("product_cross", prop_product_cross, 150, 1000, 100, 30, {1}, 1, 2),
-        Prop("hierarchy_cross", prop_hierarchy_cross, 60, 400, 100, 30, {1}, 1, 2),
+        Prop("kernels", prop_kernels, 120, 2500, 100, 40, {1}, 2, 4),
+        Prop("gs", prop_gs, 80, 1500, 100, 40, {1}, 2, 4),
+        Prop("hierarchy", prop_hierarchy, 30, 600, 100, 60, {1}, 4, 8),
+        Prop("solve", prop_solve, 25, 400, 100, 40, {1}, 2, 4),
+        Prop("product_cross", prop_product_cross, 80, 1000, 100, 30, {1}, 1, 2),
+        Prop("hierarchy_cross", prop_hierarchy_cross, 30, 400, 100, 30, {1}, 1, 2),
     };
 }
 static std::vector<Enum> enums() { return {}; }
